@@ -13,8 +13,7 @@ def main(argv):
     mod = importlib.import_module('checks.' + prop)
     if argv[1] == '--replay':
         return mod.replay(argv[2]) if hasattr(mod, 'replay') else generic_replay(argv[2])
-    tier = argv[1]
-    tier = os.environ.get('VERIF_TIER', tier)
+    tier = argv[1]          # the tier named on the command line wins; VERIF_TIER is informational
     seed = int(os.environ.get('VERIF_SEED', '20261001'))
     wb = '--write-baseline' in argv
     return mod.main(tier, seed, write_baseline=wb)
